@@ -6,6 +6,7 @@ import numpy as np
 from . import core, mixin
 from .data import Data
 from .decorators import _manage_log_level_via_verbosity
+from .functions import _creation_commands_literal
 
 logger = logging.getLogger(__name__)
 
@@ -165,7 +166,7 @@ class CellMethod(mixin.Container, core.CellMethod):
 
         for term, value in self.qualifiers().items():
             if term == "interval":
-                value = deepcopy(value)
+                value = list(deepcopy(value))
                 for i, data in enumerate(value[:]):
                     if isinstance(data, self._Data):
                         value[i] = data.creation_commands(
@@ -175,12 +176,12 @@ class CellMethod(mixin.Container, core.CellMethod):
                             string=True,
                         )
                     else:
-                        value[i] = str(data)
+                        value[i] = _creation_commands_literal(data)
 
                 value = ", ".join(value)
                 value = f"[{value}]"
             else:
-                value = repr(value)
+                value = _creation_commands_literal(value)
 
             out.append(f"{name}.set_qualifier({term!r}, {value})")
 
